@@ -437,7 +437,9 @@ def divDischarge : List (Nat × Reason) := [
   (3759175648, .assetLoad),  -- calcAudioTimeFromRef: / refTimescale
   (1979172400, .cfgOK),      -- calcCueItvls: / cueFullMS                (CfgOK.tsdur, div_cueFullMS)
   (2420148986, .cfgOK),      -- calcCueItvls: / cueFullMS
-  (4120811507, .assetLoad),  -- calcSegmentAvailabilityTime: / wrapLen
+  (4120811507, .localGuard), -- calcSegmentAvailabilityTime: / wrapLen   (wrapLen == 0 tested: `fix:` commit)
+  (2271772268, .assetLoad),  -- calcSegmentAvailabilityTime: / timescale
+  (4119573384, .localGuard), -- cmafIngester.sendMediaSegments: / int(se.mediaTimescale)   (tested != 0 in the same condition)
   (525333239, .cfgOK),       -- calcStatusCode: / cycleInTimescale       (CfgOK.codes, div_cycleInTimescale)
   (901678366, .assetLoad),   -- calcWrapTimes: / LoopDurMS
   (1854835984, .assetLoad),  -- calcWrapTimes: / LoopDurMS
